@@ -6,5 +6,6 @@ CONSTANTS
   HasOld = FALSE
   Split = TRUE
 INVARIANT NeverPoisoned
+INVARIANT OldNeverLost
 INVARIANT FinalAlwaysComplete
 CHECK_DEADLOCK FALSE
